@@ -460,6 +460,49 @@ Definition hole4_at (im : image) (l y x : Z) : bool :=
 Lemma hole_delta_four : forall d0 d2 d6 d8 : bool, qdelta d0 true d2 true true d6 true d8 = 4.
 Proof. intros d0 d2 d6 d8. destruct d0, d2, d6, d8; vm_compute; reflexivity. Qed.
 
+(* the quad side of the two filling moves *)
+Lemma removed_filled_inS im l y x : rect im -> l <> 0 ->
+  0 <= y < Z.of_nat (img_h im) -> 0 <= x < Z.of_nat (img_w im) -> get2 im y x <> l ->
+  get2 (set_px im y x l) y x = l /\
+  euler4 (remove_px (set_px im y x l) y x) l = euler4 im l /\
+  (forall dy dx, (dy, dx) <> (0, 0) -> inS (set_px im y x l) l (y + dy) (x + dx) = nb_bit im l y x dy dx).
+Proof.
+  intros R Hl Hy Hx NP. set (im2 := set_px im y x l).
+  assert (R2 : rect im2) by (apply set_px_rect; exact R).
+  assert (G2 : forall y' x', get2 im2 y' x' = if (y' =? y) && (x' =? x) then l else get2 im y' x')
+    by (intros; apply set_px_get_inside; assumption).
+  assert (P2 : get2 im2 y x = l) by (rewrite G2, !Z.eqb_refl; reflexivity).
+  split; [exact P2|]. split.
+  - apply euler4_ext; auto.
+    + apply set_px_rect. exact R2.
+    + unfold remove_px, im2. rewrite !set_px_h. reflexivity.
+    + unfold remove_px, im2. rewrite !set_px_w. reflexivity.
+    + intros y' x'. rewrite (inS_removed im2 l y x Hl P2). unfold inS. rewrite G2.
+      destruct ((y' =? y) && (x' =? x)) eqn:Eq; [|reflexivity].
+      apply andb_true_iff in Eq. destruct Eq as [A B]. apply Z.eqb_eq in A. apply Z.eqb_eq in B. subst y' x'.
+      symmetry. apply Z.eqb_neq. exact NP.
+  - intros dy dx N. unfold nb_bit, inS. fold im2. rewrite G2.
+    destruct ((y + dy =? y) && (x + dx =? x)) eqn:Eq; [|reflexivity].
+    apply andb_true_iff in Eq. destruct Eq as [A B]. apply Z.eqb_eq in A. apply Z.eqb_eq in B.
+    exfalso. apply N. f_equal; lia.
+Qed.
+Lemma fill_keeps_euler4 im l y x : rect im -> l <> 0 ->
+  0 <= y < Z.of_nat (img_h im) -> 0 <= x < Z.of_nat (img_w im) -> get2 im y x <> l ->
+  simple_at (set_px im y x l) l y x = true -> euler4 (set_px im y x l) l = euler4 im l.
+Proof.
+  intros R Hl Hy Hx NP S. destruct (removed_filled_inS im l y x R Hl Hy Hx NP) as [P2 [E _]].
+  rewrite <- E. symmetry. apply euler_simple_deletion; auto. apply set_px_rect. exact R.
+Qed.
+Lemma hole_raises_euler4 im l y x : rect im -> l <> 0 ->
+  0 <= y < Z.of_nat (img_h im) -> 0 <= x < Z.of_nat (img_w im) -> get2 im y x <> l ->
+  hole4_at im l y x = true -> euler4 (set_px im y x l) l = euler4 im l + 4.
+Proof.
+  intros R Hl Hy Hx NP S. destruct (removed_filled_inS im l y x R Hl Hy Hx NP) as [P2 [E NB]].
+  rewrite (euler_removal_step (set_px im y x l) l y x (set_px_rect im y x l R) Hl P2).
+  rewrite !NB by (intros E0; inversion E0). unfold hole4_at in S.
+  repeat (apply andb_true_iff in S; destruct S as [S ?]). rewrite H, H0, H1, S. rewrite hole_delta_four. rewrite E. reflexivity.
+Qed.
+
 (* ---------------------------------------------------------------- reductions with fillings *)
 (* [Reduces2 l im k]: the pixel set of l is emptied by deleting simple pixels, filling pixels that are
    simple once filled (the reverse of a simple deletion), deleting isolated points (k counts them)
